@@ -1608,4 +1608,265 @@ theorem shiftKernel_decode {α : Type} [Inhabited α] (a : Arr α) (hwf : a.WF) 
     conv => rhs; rw [hk]
     exact shift_left_list a.decode (-k).toNat (by omega) (by omega)
 
+/-! ### byte arrays -/
+
+/-- running end offsets of a list of slot values, starting after `cur` bytes -/
+def scanEnds : List (List Nat) → Nat → List Nat
+  | [], _ => []
+  | l :: ls, cur => (cur + l.length) :: scanEnds ls (cur + l.length)
+
+theorem copyRange_append_mid {α : Type} (pre l post : List α) :
+    copyRange (pre ++ l ++ post) (pre.length, pre.length + l.length) = l := by
+  unfold copyRange
+  simp
+
+theorem slotOf_cons (o : Nat) (os data : List Nat) (i : Nat) :
+    slotOf (o :: os) data (i + 1) = slotOf os data i := by
+  unfold slotOf; simp
+
+/-- slots of an array built from running offsets and concatenated values are the values -/
+theorem slots_build (L : List (List Nat)) : ∀ (pre : List Nat),
+    (List.range L.length).map (slotOf (pre.length :: scanEnds L pre.length) (pre ++ L.flatten)) = L := by
+  induction L with
+  | nil => intro pre; simp
+  | cons l ls ih =>
+    intro pre
+    rw [List.length_cons, List.range_succ_eq_map, List.map_cons, List.map_map]
+    have h0 : slotOf (pre.length :: scanEnds (l :: ls) pre.length) (pre ++ (l :: ls).flatten) 0 = l := by
+      unfold slotOf scanEnds
+      simp only [List.getD_cons_zero, List.getD_cons_succ, List.flatten_cons, Nat.zero_add]
+      rw [← List.append_assoc]
+      exact copyRange_append_mid pre l ls.flatten
+    rw [h0]
+    congr 1
+    have := ih (pre ++ l)
+    simp only [List.length_append, List.append_assoc] at this
+    refine Eq.trans ?_ this
+    apply List.map_congr_left
+    intro i _
+    simp only [Function.comp, scanEnds, List.flatten_cons, Nat.succ_eq_add_one]
+    rw [slotOf_cons]
+
+/-- well-formed byte array: monotone offsets inside the value buffer, one validity bit per slot -/
+structure BArr.WF (b : BArr) : Prop where
+  nonempty : 0 < b.offsets.length
+  mono : ∀ i j, i ≤ j → j < b.offsets.length → b.offsets.getD i 0 ≤ b.offsets.getD j 0
+  bound : ∀ j, j < b.offsets.length → b.offsets.getD j 0 ≤ b.data.length
+  nulls : ∀ bs, b.nulls = some bs → bs.length = b.len
+
+theorem length_copyRange {α : Type} (l : List α) (a c : Nat) (h : c ≤ l.length) :
+    (copyRange l (a, c)).length = c - a := by
+  unfold copyRange; simp; omega
+
+theorem length_slot (b : BArr) (hw : b.WF) (i : Nat) (hi : i < b.len) :
+    (slotOf b.offsets b.data i).length = b.offsets.getD (i + 1) 0 - b.offsets.getD i 0 := by
+  unfold slotOf
+  exact length_copyRange _ _ _ (hw.bound (i + 1) (by unfold BArr.len at hi; omega))
+
+theorem extendOffsetsIdx_eq (b : BArr) (hw : b.WF) (idx : List Nat) (hin : ∀ i ∈ idx, i < b.len) (cur : Nat) :
+    extendOffsetsIdx b.offsets idx cur = scanEnds (idx.map (slotOf b.offsets b.data)) cur := by
+  induction idx generalizing cur with
+  | nil => rfl
+  | cons i is ih =>
+    simp only [extendOffsetsIdx, List.map_cons, scanEnds]
+    rw [length_slot b hw i (hin i (by simp)), ih (fun j hj => hin j (by simp [hj]))]
+
+theorem extendIdx_eq (b : BArr) (idx : List Nat) :
+    extendIdx b.offsets b.data idx = (idx.map (slotOf b.offsets b.data)).flatten := by
+  unfold extendIdx slotOf
+  rw [List.flatMap_def]
+
+/-- the byte array `FilterBytes` / `take_bytes` / `interleave_bytes` build from a list of source
+slots holds exactly those slot values -/
+theorem built_slots (b : BArr) (hw : b.WF) (idx : List Nat) (hin : ∀ i ∈ idx, i < b.len) (n : Option (List Bool)) :
+    (BArr.mk (0 :: extendOffsetsIdx b.offsets idx 0) (extendIdx b.offsets b.data idx) n).slots
+      = idx.map (slotOf b.offsets b.data) := by
+  unfold BArr.slots BArr.len
+  rw [extendOffsetsIdx_eq b hw idx hin, extendIdx_eq]
+  have := slots_build (idx.map (slotOf b.offsets b.data)) []
+  simp only [List.length_nil, List.nil_append, List.length_map] at this
+  simp only [List.length_cons]
+  have hsl : ∀ (L : List (List Nat)) c, (scanEnds L c).length = L.length := by
+    intro L; induction L <;> simp_all [scanEnds]
+  have hl : (scanEnds (idx.map (slotOf b.offsets b.data)) 0).length = idx.length := by
+    rw [hsl]; simp
+  rw [hl]
+  simpa using this
+
+
+theorem copyRange_split {α : Type} (l : List α) (a b c : Nat) (hab : a ≤ b) (hbc : b ≤ c) :
+    copyRange l (a, c) = copyRange l (a, b) ++ copyRange l (b, c) := by
+  unfold copyRange
+  simp only
+  have e : c - a = (b - a) + (c - b) := by omega
+  rw [e, List.take_add, List.drop_drop]
+  have : a + (b - a) = b := by omega
+  rw [this]
+
+theorem indicesAux_lt (m : List Bool) (k : Nat) : ∀ i ∈ indicesAux m k, i < k + m.length := by
+  induction m generalizing k with
+  | nil => simp [indicesAux]
+  | cons b m ih =>
+    intro i hi
+    cases b
+    · simp only [indicesAux] at hi
+      have := ih (k + 1) i hi
+      simp; omega
+    · simp only [indicesAux, List.mem_cons] at hi
+      rcases hi with hi | hi
+      · subst hi; simp
+      · have := ih (k + 1) i hi
+        simp; omega
+
+/-- the rows visited run by run (`for idx in start..end`) are the set-bit indices -/
+theorem slices_rows (m : List Bool) : ∀ i,
+    (slicesAux m i none).flatMap (fun se => (List.range (se.2 - se.1)).map (· + se.1)) = indicesAux m i ∧
+    ∀ s, s ≤ i → (slicesAux m i (some s)).flatMap (fun se => (List.range (se.2 - se.1)).map (· + se.1))
+      = (List.range (i - s)).map (· + s) ++ indicesAux m i := by
+  induction m with
+  | nil => intro i; simp [slicesAux, indicesAux]
+  | cons b m ih =>
+    intro i
+    have ih' := ih (i + 1)
+    cases b with
+    | false =>
+      refine ⟨by simpa [slicesAux, indicesAux] using ih'.1, ?_⟩
+      intro s hs
+      simp only [slicesAux, indicesAux, List.flatMap_cons]
+      rw [ih'.1]
+    | true =>
+      constructor
+      · simp only [slicesAux, indicesAux]
+        rw [ih'.2 i (by omega)]
+        have : i + 1 - i = 1 := by omega
+        rw [this]; simp
+      · intro s hs
+        simp only [slicesAux, indicesAux]
+        rw [ih'.2 s (by omega)]
+        have e : i + 1 - s = (i - s) + 1 := by omega
+        rw [e, List.range_succ, List.map_append]
+        have : i - s + s = i := by omega
+        simp [this]
+
+/-- one contiguous copy per run moves the same bytes as one copy per row -/
+theorem slices_bytes (b : BArr) (hw : b.WF) (m : List Bool) : ∀ i, i + m.length < b.offsets.length →
+    (slicesAux m i none).flatMap (fun se => copyRange b.data (b.offsets.getD se.1 0, b.offsets.getD se.2 0))
+      = extendIdx b.offsets b.data (indicesAux m i) ∧
+    ∀ s, s ≤ i → (slicesAux m i (some s)).flatMap (fun se => copyRange b.data (b.offsets.getD se.1 0, b.offsets.getD se.2 0))
+      = copyRange b.data (b.offsets.getD s 0, b.offsets.getD i 0) ++ extendIdx b.offsets b.data (indicesAux m i) := by
+  induction m with
+  | nil => intro i _; simp [slicesAux, indicesAux, extendIdx]
+  | cons x m ih =>
+    intro i hi
+    have ih' := ih (i + 1) (by simp at hi; omega)
+    cases x with
+    | false =>
+      refine ⟨by simpa [slicesAux, indicesAux] using ih'.1, ?_⟩
+      intro s hs
+      simp only [slicesAux, indicesAux, List.flatMap_cons]
+      rw [ih'.1]
+    | true =>
+      have hlt : i + 1 < b.offsets.length := by simp at hi; omega
+      constructor
+      · simp only [slicesAux, indicesAux]
+        rw [ih'.2 i (by omega)]
+        simp [extendIdx]
+      · intro s hs
+        simp only [slicesAux, indicesAux]
+        rw [ih'.2 s (by omega)]
+        rw [copyRange_split b.data _ (b.offsets.getD i 0) _ (hw.mono s i hs (by omega)) (hw.mono i (i + 1) (by omega) hlt)]
+        simp [extendIdx]
+
+/-- **`FilterBytes`, all four strategies**: the filtered array holds exactly the slot values
+under set bits, in order -/
+theorem filterBytes_slots (b : BArr) (hw : b.WF) (p : Predicate) (hv : p.Valid)
+    (hl : p.filter.length ≤ b.len) (hs : p.strategy ≠ .all ∧ p.strategy ≠ .none) :
+    (filterBytes b p).slots = filt b.slots p.filter := by
+  obtain ⟨hc, hstr⟩ := hv
+  have hin := indicesAux_lt p.filter 0
+  have hin' : ∀ i ∈ indicesAux p.filter 0, i < b.len := fun i hi => by have := hin i hi; omega
+  have hslots : b.slots.length = b.len := by simp [BArr.slots]
+  have hmap : (indicesAux p.filter 0).map (slotOf b.offsets b.data) = filt b.slots p.filter := by
+    have h := indicesAux_map b.slots [] p.filter 0 (by omega)
+    rw [List.drop_zero] at h
+    rw [← h]
+    apply List.map_congr_left
+    intro j hj
+    have hj' := hin' j hj
+    unfold BArr.slots
+    rw [List.getD_eq_getElem?_getD, List.getElem?_map, List.getElem?_range hj']
+    rfl
+  have hidx := built_slots b hw (indicesAux p.filter 0) hin' (filterNulls b.nulls p)
+  have hlen1 : 0 + p.filter.length < b.offsets.length := by unfold BArr.len at hl; have := hw.nonempty; omega
+  have hsl : extendOffsetsSlices b.offsets (slicesOf p.filter) = extendOffsetsIdx b.offsets (indicesAux p.filter 0) 0 := by
+    unfold extendOffsetsSlices slicesOf
+    rw [(slices_rows p.filter 0).1]
+  have hsd : extendSlices b.offsets b.data (slicesOf p.filter) = extendIdx b.offsets b.data (indicesAux p.filter 0) := by
+    unfold extendSlices slicesOf
+    exact (slices_bytes b hw p.filter 0 hlen1).1
+  unfold filterBytes
+  cases hst : p.strategy with
+  | slicesIterator => simp only; rw [hsl, hsd, hidx, hmap]
+  | slices sl => rw [hst] at hstr; simp only at hstr; subst hstr; simp only; rw [hsl, hsd, hidx, hmap]
+  | indexIterator => simp only; rw [hc, indexIter_eq, hidx, hmap]
+  | indices ix => rw [hst] at hstr; simp only at hstr; subst hstr; simp only; rw [hidx, hmap]
+  | all => simp [hst] at hs
+  | none => simp [hst] at hs
+
+/-- **`filter_bytes` = `filterSpec`**: decoding the physical result (offsets + value bytes +
+validity) gives exactly the rows the predicate selects from the decoded input, for every
+iteration strategy -/
+theorem filterBytes_decode (b : BArr) (hw : b.WF) (p : Predicate) (hv : p.Valid)
+    (hl : p.filter.length ≤ b.len) (hs : p.strategy ≠ .all ∧ p.strategy ≠ .none) :
+    (filterBytes b p).decode = filt b.decode p.filter := by
+  have hslots := filterBytes_slots b hw p hv hl hs
+  have hvw : b.view.WF := by
+    intro bs h
+    rw [hw.nulls bs h]; simp [BArr.view, BArr.slots]
+  have hlen : p.filter.length ≤ b.view.len := by simp [BArr.view, Arr.len, BArr.slots]; exact hl
+  obtain ⟨r, h1, h2, _⟩ := filterArray_decode b.view hvw p hv hlen
+  have hr : r = filterPrimitive b.view p := by
+    unfold filterArray at h1
+    rw [if_neg (by omega)] at h1
+    cases hst : p.strategy <;> simp_all
+  have hn : filterNative b.view.vals p = filt b.slots p.filter :=
+    filterNative_eq b.slots p hv (by simp [BArr.slots]; exact hl) hs
+  unfold BArr.decode
+  rw [← h2, hr]
+  unfold filterPrimitive BArr.view
+  simp only
+  rw [hslots]
+  have hcnt : (filt b.slots p.filter).length = p.count := by
+    rw [length_filt _ _ (by simp [BArr.slots]; exact hl), hv.1]
+  have : (filterNative b.slots p).take p.count = filt b.slots p.filter := by
+    have := hn; simp only [BArr.view] at this
+    rw [this, ← hcnt, List.take_length]
+  rw [this]
+  rfl
+
+/-! ### zip of two primitive scalars -/
+
+theorem zipScalars_decode {α : Type} [Inhabited α] (mask : List (Option Bool)) (t f : Option α) :
+    (zipScalars mask t f).decode = zipSpec mask (List.replicate mask.length t) (List.replicate mask.length f) := by
+  unfold zipScalars
+  cases t <;> cases f <;> simp only [Arr.decode] <;>
+  · induction mask with
+    | nil => simp [prepMask, zipSpec, decodeWith]
+    | cons m ms ih =>
+      simp only [prepMask, List.map_cons, List.length_cons, List.replicate_succ, zipSpec, decodeWith, List.length_map] at ih ⊢
+      rw [ih]
+      rcases m with _ | _ | _ <;> simp
+
+/-! ### dictionary -/
+
+/-- dictionary arrays: kernels touch only the keys, the logical value is looked up afterwards -/
+theorem filterSpec_map {α β : Type} (g : α → β) (l : List α) (m : List (Option Bool)) :
+    filterSpec (l.map g) m = (filterSpec l m).map g := by
+  induction l generalizing m with
+  | nil => cases m <;> simp [filterSpec]
+  | cons v vs ih =>
+    cases m with
+    | nil => simp [filterSpec]
+    | cons b m => rcases b with _ | _ | _ <;> simp [filterSpec, ih]
+
 end ArrowModel.C03
